@@ -212,6 +212,19 @@ def run(chk, prog):
         rcs = prog.fn('Story::reset_callstack')
         okfe = rcs is not None and any(callee_short(t) == 'StoryState::force_end' for _, t in rcs.calls()) and any(
             callee_short(t) == 'CallStack::reset' for _, t in fe.calls())
+        # ... on EVERY successful path of reset_callstack (a story resting at `-> DONE` inside a tunnel has a null pointer
+        # and no choices, yet its tunnel frames are still on the call stack)
+        if rcs is not None:
+            from analysis.wbf import err_exits as _ee17
+            g_r = cfg(rcs)
+            fes = [bb for bb, t in rcs.calls() if callee_short(t) == 'StoryState::force_end']
+            errs_ = [b for b, d_, s_ in _ee17(prog, rcs)]
+            w_ = g_r.path([0], lambda b: b in g_r.returns, avoid=fes + errs_)
+            chk.decide(RC, chk.key(RC, 'reset_callstack-always-ends'), bool(fes) and w_ is None,
+                       'every successful path of reset_callstack passes force_end',
+                       'reset_callstack can return Ok without force_end: a jump with reset_call_stack = true then keeps '
+                       'whatever frames the story had (for instance a tunnel it was resting in at `-> DONE`), and a later '
+                       '`->->` returns into the abandoned caller', rcs.loc(0), {'witness_blocks': w_})
         chk.decide(RC, chk.key(RC, 'force_end-resets-callstack'), okfe,
                    'reset_callstack -> force_end -> CallStack::reset', 'the call stack is no longer reset by '
                    'reset_callstack/force_end', fe.loc(0))
